@@ -134,7 +134,8 @@ class Emitter:
                 lines.append("\t%s %s%s%s" % (f[3], REP_PREFIX[f[1]], tn, tag))
             elif f[0] == "embedded":
                 self.ntype += 1
-                tn = f[2] if len(f) > 2 else "E%d" % self.ntype
+                # names both of the kind E1 and of the usual CamelCase kind (Base2): the generator inspects the spelling of an embedded type's name
+                tn = f[2] if len(f) > 2 else ("E%d" if self.ntype % 2 else "Base%d") % self.ntype
                 if tn not in self.declared:
                     self.declared.add(tn)
                     self.struct(tn, f[1])
